@@ -15,3 +15,11 @@ package directory
 //@ func (*directory._UnixFSBasicDir).Substrate
 //@ ensures substrate-is-original: result == n._substrate
 //@ assigns nothing
+
+// Behavioural subtyping: these node types are maps / byte strings, never lists, so they answer
+// Kind() with a non-list kind and have no list iterator (the datamodel.Node interface contract
+// for both methods is checked here under that stated domain).
+//@ func (*directory._UnixFSBasicDir).Kind
+//@ domain not-a-list: !isList(n)
+//@ func (*directory._UnixFSBasicDir).ListIterator
+//@ domain not-a-list: !isList(n)
